@@ -211,8 +211,8 @@ class FlowFields(ImageBatch):
         spacing: Optional[Union[Scalar, Array]] = None,
         stride: Optional[ScalarOrTuple[int]] = None,
     ) -> ImageBatch:
-        if self.ndim not in (2, 3):
-            raise RuntimeError(f"Cannot compute curl of {self.ndim}-dimensional flow field")
+        if self.sdim not in (2, 3):
+            raise RuntimeError(f"Cannot compute curl of {self.sdim}-dimensional flow field")
         if spacing is None:
             if self.axes() is Axes.GRID:
                 spacing = 1
